@@ -178,11 +178,6 @@ Section QuantizedProofs.
   Hypothesis HX : ext_ok X.
   Notation elt := (Z * D)%type.
 
-  (** what a pre-ranking stage may do with the candidates: reorder, drop, re-key — never invent
-      or duplicate an id *)
-  Definition pre_ok (pre : list elt -> list elt) : Prop :=
-    forall l, NoDup (map fst l) -> NoDup (map fst (pre l)) /\ incl (map fst (pre l)) (map fst l).
-
   Definition rescored (m : nodemap V) (q : V) (cands : list elt) : list elt :=
     flat_map (fun c => match lookup m (fst c) with Some n => [(fst c, dist2 q (fst n))] | None => [] end) cands.
 
